@@ -5,14 +5,14 @@ CONSTANTS
   Needs <- NeedsB
   KD = 1
   MaxTime = 2
-  MaxPacks = 5
-  MaxCmds = 3
+  MaxPacks = 6
+  MaxCmds = 4
   Concurrent = FALSE
   AllowInstant = TRUE
-  AllowCrash = TRUE
+  AllowCrash = FALSE
   AllowEarly = FALSE
   TickInPrune = TRUE
   UntypedDedup = FALSE
 VIEW View
-INVARIANTS TypeOK AllReadable BroughtBack NoDangling
+INVARIANTS AllReadable BroughtBack NoDangling EmitHist
 CHECK_DEADLOCK FALSE
